@@ -188,6 +188,42 @@ fn mutate(rng: &mut Rng, p: &[u8]) -> Vec<u8> {
 }
 
 fn synth_cases<W: Write>(prop: &str, opts: &Opts, out: &mut W, rng: &mut Rng) {
+    // valid streams with a LONG header phase (two or more refills of the production 4096-byte bit buffer): whatever
+    // depends on how much is buffered when a symbol is decoded shows only here
+    let nl: u64 = if opts.tier_thorough { 400 } else { 48 };
+    for i in 0..nl {
+        if !opts.mine(i) {
+            continue;
+        }
+        let mut r = rng.fork(i ^ 0x10_0000);
+        let (body, w, h) = synth::long_header_stream(&mut r, 9000);
+        if i % 4 == 3 {
+            let mut p = vec![1u8 | ((r.below(4) as u8) << 2)];
+            p.extend(body);
+            emit_alph(out, prop, &format!("synth-long-alph-{i}-valid"), &p, w, h);
+        } else {
+            let mut bw = synth::BitWriter::new();
+            bw.bits(0x2f, 8);
+            bw.bits(w - 1, 14);
+            bw.bits(h - 1, 14);
+            bw.bit(r.chance(1, 2));
+            bw.bits(0, 3);
+            let mut p = bw.bytes;
+            p.extend(body);
+            emit_vp8l(out, prop, &format!("synth-long-{i}-valid"), &p);
+        }
+    }
+    // ... and valid streams with many groups of big normal prefix codes (the definitions, not pixel data, span the refills)
+    let ng: u64 = if opts.tier_thorough { 300 } else { 40 };
+    for i in 0..ng {
+        if !opts.mine(i) {
+            continue;
+        }
+        let mut r = rng.fork(i ^ 0x20_0000);
+        let groups = 6 + r.below(40) as u32;
+        let p = synth::many_normal_groups(&mut r, groups);
+        emit_vp8l(out, prop, &format!("synth-groups-{i}-{groups}-valid"), &p);
+    }
     let n: u64 = if opts.tier_thorough { 40000 } else { 4000 };
     for i in 0..n {
         if !opts.mine(i) {
